@@ -738,6 +738,16 @@ func newFH(cfg FCfg) *fh {
 		h.keys = append(h.keys, []byte(keyNames[i]))
 	}
 
+	for _, t := range cfg.Tags {
+		if t == "longkeys" {
+			// keys of 100 bytes that share their first 70
+			for i := 0; i < nkeys; i++ {
+				h.names[i] = strings.Repeat("long-key-", 10)[:70] + "/" + keyNames[i] + strings.Repeat("#", 16)
+				h.keys[i] = []byte(h.names[i])
+			}
+		}
+	}
+
 	if cfg.Collide {
 		ck := collidingKeys([]byte("collision-base-0123456789abcdef-collision-base-0123456789abcdef!")[:64], nkeys)
 		for i := 0; i < nkeys; i++ {
@@ -1208,7 +1218,7 @@ func (h *fh) body() {
 			for _, op := range ops {
 				if op.Reuse {
 					if buf == nil {
-						buf = make([]byte, len(keyNames[0]))
+						buf = make([]byte, len(h.keys[0])) // all keys of a scenario have the same length
 					}
 
 					h.runGet(op, buf)
